@@ -407,9 +407,14 @@ impl Scripted {
     }
 
     pub fn new(port: u16, nid: u8, key: usize, trusted: &[usize], claims: &[crate::types::Range], peer_timeout: Option<u16>) -> Self {
+        Self::new_with_algorithms(port, nid, key, trusted, claims, peer_timeout, &[])
+    }
+
+    /// `algorithms` as in the configuration file (empty = default: all ciphers, no plain).
+    pub fn new_with_algorithms(port: u16, nid: u8, key: usize, trusted: &[usize], claims: &[crate::types::Range], peer_timeout: Option<u16>, algorithms: &[&str]) -> Self {
         let addr = addr_of(port);
         let node_id = node_id(nid);
-        let crypto = mk_crypto(node_id, &cfg_with_key(key, trusted, &[]), [100.0, 90.0, 80.0]).expect("crypto");
+        let crypto = mk_crypto(node_id, &cfg_with_key(key, trusted, algorithms), [100.0, 90.0, 80.0]).expect("crypto");
         cv::init_verif::set_salt_override(Some([0x08, 0, 0, nid]));
         let pc = crypto.peer_instance(Self::info(node_id, claims, peer_timeout, addr));
         cv::init_verif::set_salt_override(None);
